@@ -11,7 +11,8 @@ NOTE = ("Trusted: Coq 8.16.1 kernel (coqc, full .vo; no native_compute); no axio
 CLAIMS = {
  "C10": ("proof", "7.10", "Coq: free-list invariant FL of TaskListT preserved by emplace/remove/clear over operation lists of any length for every capacity 1..255; emplace succeeds iff "
          "count < capacity, returns a vacant slot, leaves occupied slots untouched; no leak (from any reachable state the remaining capacity is available). Correspondence: real "
-         "TaskListT and real machines' plan() vs the extracted model; abstract allocator/list oracle over implementation results.",
+         "TaskListT and real machines' plan() vs the extracted model; abstract allocator/list oracle over implementation results. Source tie by proof (DESIGN.md 4.7): TaskListT<void,N>::emplace/remove/clear "
+         "are translated from clang's typed AST of the current source on every run (tools/leafcode.py) and proved to stay inside the array and to equal the model on every list satisfying FL (Proofs/LeafCodeTaskList.v).",
          "Coq proof (invariant by induction over operation lists) + model/implementation correspondence"),
  "C13": ("proof", "7.13", "Coq: bit-level write/read specifications of the per-byte chunk loops, round trip for any field sequence that fits, contiguity, locality, zeros past the cursor, "
          "bitWidth exact for all 32-bit arguments, width suffices for every state count. Correspondence: real BitWriteStreamT/BitReadStreamT/bitWidth vs the extracted model on every "
